@@ -8,10 +8,12 @@ from harness.core import enc_str, dec_str
 
 PROPERTY = "C11"
 READY = True
-THEOREMS = ["C11.consts_ok", "C11.wf_checked", "C11.distinct_checked", "C11.json_domain_in_python_domain", "C11.no_loss", "C11.read_render", "C11.int_text", "C11.norm_perm", "C11.key_order", "C11.keys_sorted", "C11.lines",
+THEOREMS = ["C11.consts_ok", "C11.wf_checked", "C11.distinct_checked", "C11.json_domain_in_python_domain", "C11.no_loss", "C11.read_render", "C11.int_text", "C11.norm_perm", "C11.key_order", "C11.keys_sorted", "C11.order_is_local", "C11.lines",
             "C11.lines_own_chunks", "C11.read_lines", "C11.sort_then_render", "C11.one_line_fits", "C11.chunk_classes",
             "C11.text_determines_value"]
-RULE = ("one value per case, printed in both modes and consumed in every way a caller can (whole text, str(), lines "
+RULE = ("every case starts from the state of a fresh process (the package under test is imported anew, no printer object "
+        "is kept: what an earlier case left in class-level or module-level state cannot reach a later case or a shrunk "
+        "candidate; a history that matters is inside the case); one value per case, printed in both modes and consumed in every way a caller can (whole text, str(), lines "
         "streamed / collected first / rendered in reverse / by index / iterated twice / after the text / two results in "
         "lock step, text after iteration), plus call sequences of several values through the same printer; diagnostic: "
         "the chunk generator at offsets 0..40 with the syntax class of every chunk, colours on then stripped, PPWrap, "
@@ -32,7 +34,12 @@ RULE = ("one value per case, printed in both modes and consumed in every way a c
         "non-printable / astral characters that are not control characters (ZWSP, U+2028, BOM, private use, tag "
         "characters, planes 15/16), keys from U+E000..U+FFFF against astral keys; "
         "values in which the same dict / list object occurs at several places (every layout, `[row]*3`, shared "
-        "defaults), sent through the protocol as references. Thresholds are read from the tree under test. "
+        "defaults), sent through the protocol as references; process history: dicts with twin keys (True/1/1.0, False/0/0.0 "
+        "- equal and of equal hash for Python, different keys of two ranks for the printer) plus keys of other ranks, every "
+        "pair in both orders inside ONE object (list, dict, nested) and as call sequences (same printer, a printer made "
+        "for the call, line iteration first, a call of the other mode / an unrelated value in between) and random "
+        "histories of 2..6 calls; float keys only there, judged by the oracle alone (`pf`/`lf`, not compared with the "
+        "model). Thresholds are read from the tree under test. "
         "non-trivial = the value contains a non-empty container; distinct by protocol text")
 TRUSTED = ["str() of float (the text is handed to the model as data; str(int) is modelled: showInt)",
            "json.loads / ast.literal_eval / ast.parse (the oracle's readers)"]
@@ -49,8 +56,20 @@ ASSUMPTIONS = ["str() of a finite float follows the JSON number grammar, is not 
                "ValueError beyond that, the model's showInt has no limit; such values are outside the domain (the "
                "oracle skips them, the driver answers err ValueError like the real printer; both sides of the boundary "
                "are generated)",
-               "dict keys are strings, ints, True/False/None (float and tuple keys are not modelled and not generated: "
-               "a float is text in the model and cannot be ordered there)"]
+               "dict keys are strings, ints, True/False/None (float and tuple keys are not modelled: a float is text in "
+               "the model and cannot be ordered there; tuple keys are never generated; float keys 0.0 / 1.0 are generated "
+               "only in the process-history cases, through the operations pf / lf that the oracle alone judges - number "
+               "keys by value, before strings, before constants - and that are not compared with the model)",
+               "the state of the code under test at the start of a case is that of a fresh import (impl() forgets the "
+               "modules of package `ak` and imports ak.ppobj again; state kept elsewhere - C extensions, the standard "
+               "library - is not reset, the code under test has none)",
+               "strings and keys are sequences of Unicode scalar values: lone surrogates (category Cs, e.g. '\\ud800') are "
+               "outside the domain. They are never generated and cannot be expressed in the model (Lean Char = scalar "
+               "value). Measured on HEAD: the printer, plain_text(), str() and the line iteration pass such a string "
+               "through unchanged and json.loads reads the JSON-mode text back to an equal value; the Python-mode text "
+               "cannot be read by ast.literal_eval / compile / eval, which fail with UnicodeEncodeError when they encode "
+               "the *source text* to UTF-8 - Python source cannot hold a lone surrogate except as a backslash escape, "
+               "and strings that need a backslash are outside the property - a limit of the reader, not of the printer"]
 
 
 # ------------------------------------------------------------------ translator
@@ -150,12 +169,14 @@ def translate(repo):
 
 
 # ------------------------------------------------------------------ value <-> protocol
+_SURR = re.compile("[\ud800-\udfff]")
 _STR_LIMIT = 10 ** 4300                    # first int CPython's str() refuses with the default limit
 
 
-def enc_val(v):
+def enc_val(v, float_keys=False):
     """postfix program of a JSON-like value; a container object met again is sent as a reference
-    (`r:<k>` = the k-th container completed so far) so that sharing survives the protocol"""
+    (`r:<k>` = the k-th container completed so far) so that sharing survives the protocol.
+    Float keys only for the oracle-only operations `pf` / `lf` (the model has no float keys)"""
     out = []
     done = {}                   # id(container) -> index of completion
 
@@ -182,7 +203,7 @@ def enc_val(v):
     while todo:
         tag, x = todo.pop()
         if tag == "key":
-            if isinstance(x, float):
+            if isinstance(x, float) and not float_keys:
                 raise TypeError("float key")
             atom(x)
         elif tag == "close":
@@ -289,6 +310,9 @@ def mk_deep(v, kind):
 def mk_case(v, kind, off=0, rng=None):
     assert _numbers_ok(v), "generator produced a non-finite number"
     e = enc_val(v)
+    assert not any(isinstance(x, str) and _SURR.search(x) for y in _nodes(v)
+                   for x in ([y] + (list(y) if isinstance(y, dict) else []))), \
+        "generator produced a lone surrogate (outside the domain, ASSUMPTIONS)"
     if not _str_keys_only(v):               # int / bool / None keys: Python mode only (not JSON data)
         lines = ["pp p " + e, "ln p " + e, "lc p " + e, "lr p " + e, "l2 p " + e, "pa p " + e,
                  "gen p %d %s" % (off, e), "pc p " + e, "pw p " + e]
@@ -346,11 +370,42 @@ def _mutate(rng, text):
 
 def observable(i, line):
     # the chunk generator is internal; `rd` compares the specification's reader with json / ast
-    return not (line.startswith("gen ") or line.startswith("rd ") or line.startswith("pc ") or line.startswith("pw "))
+    # (`pf` / `lf`: values with float keys, which the model cannot order - the oracle alone judges them)
+    return not line.startswith(("gen ", "rd ", "pc ", "pw ", "pf ", "lf "))
 
 
 # ------------------------------------------------------------------ real code
 _PP = {}
+_CODE = {}
+
+
+def _fresh_code_under_test():
+    """Every case starts from the state of a fresh process: all modules of the package under test are forgotten
+    and `ak.ppobj` is imported again (new module and class objects: nothing an earlier case left in module-level
+    or class-level state - caches, memo tables, counters - survives), and the printers of `_printer` are dropped.
+    The history a failure needs therefore has to be inside the case, and a replay file reproduces it in a new
+    process. The compiled code of the source files is kept (the tree does not change during a run), so that a
+    re-import costs about a millisecond."""
+    import importlib.machinery
+    import sys
+    _PP.clear()
+    for name in [n for n in sys.modules if n == "ak" or n.startswith("ak.")]:
+        del sys.modules[name]
+    loader = importlib.machinery.SourceFileLoader
+    orig = loader.get_code
+
+    def get_code(self, fullname):
+        if not (fullname == "ak" or fullname.startswith("ak.")):
+            return orig(self, fullname)
+        key = (fullname, self.get_filename(fullname))
+        if key not in _CODE:
+            _CODE[key] = orig(self, fullname)
+        return _CODE[key]
+    loader.get_code = get_code
+    try:
+        import ak.ppobj                         # noqa: F401
+    finally:
+        loader.get_code = orig
 
 
 def _printer(mode):
@@ -361,13 +416,20 @@ def _printer(mode):
 
 
 def impl(case):
+    _fresh_code_under_test()
     out = []
     for line in case["lines"]:
         op, mode, *rest = line.split()
         try:
             pp = _printer(mode)
-            if op == "pp":
+            if op in ("pp", "pf"):          # pf: the same call, for values with float keys (oracle only)
                 out.append("ok " + enc_str(pp(dec_val(rest), no_color=True).plain_text()))
+            elif op == "np":                # a printer object made for this call alone
+                from ak.ppobj import PrettyPrinter
+                out.append("ok " + enc_str(PrettyPrinter(fmt_json=(mode == "j"))(dec_val(rest), no_color=True).plain_text()))
+            elif op == "lf":                # collected lines, for values with float keys (oracle only)
+                lines = list(pp(dec_val(rest), no_color=True))
+                out.append("ok " + "|".join(enc_str(l.plain_text()) for l in lines))
             elif op == "pc":                # colours on (default palette), escape sequences stripped afterwards
                 from ak.color import CHText
                 res = pp(dec_val(rest))
@@ -413,7 +475,7 @@ def impl(case):
     return out
 
 
-LINE_OPS = ("ln", "lc", "lr", "l2", "li", "lp", "lz")
+LINE_OPS = ("ln", "lc", "lr", "l2", "li", "lp", "lz", "lf")
 
 
 def _consume_lines(op, res):
@@ -608,7 +670,7 @@ def check_text(text, value, mode):
     return _same(got, value)
 
 
-_WHICH = {"pp": "", "ps": "-str", "pa": "-text-after-iteration", "ln": "-lines", "lc": "-collected-lines",
+_WHICH = {"pp": "", "np": "-new-printer", "pf": "-float-keys", "lf": "-float-keys-lines", "ps": "-str", "pa": "-text-after-iteration", "ln": "-lines", "lc": "-collected-lines",
           "lr": "-collected-lines-reversed", "l2": "-second-iteration", "li": "-indexed-lines",
           "lp": "-lines-after-text", "lz": "-two-results-in-lock-step"}
 
@@ -1065,6 +1127,101 @@ def mk_seq(values, kind):
 
 
 
+# ---- process history: keys that are equal / hash alike for Python but are different keys for the printer
+_TWINS = [(True, 1, 1.0), (False, 0, 0.0)]
+_OTHER_KEYS = ["s", "", "k1", "True", "1", "0", "~", 2, -1, 7, 10 ** 20, None]
+
+
+def _twin_dict(rng, special, n_other=None):
+    """a dict with the key `special` (a bool, or the int / float equal to it) and 1..3 keys of other ranks, so that
+    a misplaced `special` shows; insertion order random"""
+    d = {special: rng.choice(["v", 0, None, [1], {"a": []}])}
+    for _ in range(n_other if n_other is not None else rng.choice([1, 1, 2, 3])):
+        k = rng.choice(_OTHER_KEYS)
+        if k not in d:
+            d[k] = rng.choice([1, "x", None, [], [2, "y"]])
+    if len(d) == 1:
+        d["s"] = 1
+    items = list(d.items())
+    rng.shuffle(items)
+    return dict(items)
+
+
+def _has_float_key(v):
+    return any(isinstance(k, float) for x in _nodes(v) if isinstance(x, dict) for k in x)
+
+
+def _hist_line(op, mode, v):
+    """one protocol line; a value with float keys goes through the oracle-only operations"""
+    if _has_float_key(v):
+        assert mode == "p"
+        return "%s p %s" % ("lf" if op in LINE_OPS else "pf", enc_val(v, float_keys=True))
+    return "%s %s %s" % (op, mode, enc_val(v))
+
+
+def _history_cases(rng, quick):
+    """Dicts whose keys are twins (True/1/1.0, False/0/0.0: equal and of equal hash in Python, three different
+    keys for the printer, of two different ranks in the key order), in ONE object and in call sequences: bools
+    first and numbers first, through the same printer, a printer made for the call, the line iteration, with calls
+    of the other mode / of unrelated values in between. Python mode (JSON data has string keys; the JSON printer
+    takes part as the call in between and with the string spellings of the keys)."""
+    def fillers():
+        return rng.choice([("pp", "j", {"1": True, "0": [False, 1.0], "True": 1}), ("lc", "j", [True, 1, 1.0, "1"]),
+                           ("pp", "p", [1, True, 1.0, 0, False, 0.0]), ("np", "j", {"a": {"b": 0}}),
+                           ("pp", "p", {"s": 1, None: 2, 5: 3}), ("ln", "p", {"x": [0.0, False]})])
+    # exhaustive small scope: every twin pair, both orders, in one object (list / dict) and as two calls
+    for b, i, f in _TWINS:
+        for first, second in ((b, i), (i, b), (b, f), (f, b), (i, f), (f, i)):
+            for shape in ("list", "dict", "nested", "calls", "calls-new-printer", "calls-lines", "calls-between"):
+                d1, d2 = _twin_dict(rng, first), _twin_dict(rng, second)
+                kind = "history-" + ("one-object" if shape in ("list", "dict", "nested") else "calls")
+                if shape == "list":
+                    vals = [("pp", [d1, d2]), ("lc", [d1, d2])]
+                elif shape == "dict":
+                    vals = [("pp", {"a": d1, "b": d2}), ("ln", {"a": d1, "b": d2})]
+                elif shape == "nested":
+                    d1 = dict(d1)
+                    d1["zz"] = [d2]
+                    vals = [("pp", [[d1]])]
+                elif shape == "calls":
+                    vals = [("pp", d1), ("pp", d2), ("pp", d1)]
+                elif shape == "calls-new-printer":
+                    vals = [("np", d1), ("np", d2)]
+                elif shape == "calls-lines":
+                    vals = [(rng.choice(["lc", "ln", "l2"]), d1), ("pp", d2)]
+                else:
+                    vals = None
+                if shape in ("list", "dict", "nested"):
+                    # one line per case: the whole history is inside the value
+                    for op, v in vals:
+                        yield {"lines": [_hist_line(op, "p", v)], "meta": {"kind": kind}}
+                    if not _has_float_key(vals[0][1]):
+                        yield mk_case(vals[0][1], kind, 0, rng)
+                    continue
+                if vals is None:
+                    fo, fm, fv = fillers()
+                    lines = [_hist_line("pp", "p", d1), _hist_line(fo, fm, fv), _hist_line("pp", "p", d2)]
+                else:
+                    lines = [_hist_line(op, "p", v) for op, v in vals]
+                yield {"lines": lines, "meta": {"kind": kind}}
+    # random histories: 2..6 calls over twin dicts / lists of them / fillers, random operations
+    for _ in range(60 if quick else 1500):
+        b, i, f = rng.choice(_TWINS)
+        lines = []
+        for _ in range(rng.randint(2, 6)):
+            r = rng.random()
+            if r < 0.25:
+                fo, fm, fv = fillers()
+                lines.append(_hist_line(fo, fm, fv))
+                continue
+            ks = [rng.choice([b, i, f] if rng.random() < 0.8 else [True, False, 0, 1, 0.0, 1.0])
+                  for _ in range(rng.choice([1, 1, 2]))]
+            ds = [_twin_dict(rng, k) for k in ks]
+            v = ds[0] if len(ds) == 1 and rng.random() < 0.6 else (ds if rng.random() < 0.5 else {"k%d" % j: d for j, d in enumerate(ds)})
+            lines.append(_hist_line(rng.choice(["pp", "pp", "np", "lc", "ln", "pa"]), "p", v))
+        yield {"lines": lines, "meta": {"kind": "history-calls"}}
+
+
 def _limits():
     """the thresholds of the tree under test (so that the generators aim at its boundaries)"""
     try:
@@ -1275,6 +1432,9 @@ def gen_cases(rng, tier):
             [a, _value(rng, 1, False), a], [{"a": 1, "b": 2}, {"b": 1, "a": 2}, {"a": 1}],
             [_wrapped_list(rng, 0, lim_w), [x, sp], a]])
         yield mk_seq(seq, "sequence")
+    # 18. process history made explicit: twin keys (True/1/1.0, False/0/0.0) in one object and in call sequences
+    for c in _history_cases(rng, quick):
+        yield c
 
 
 def search_cases(rng, tier):
@@ -1344,9 +1504,26 @@ def _smaller(v):
 
 def shrink(case):
     lines = case["lines"]
+    meta = case.get("meta", {})
     if len(lines) > 1:
+        # (every candidate is run by impl() from a fresh state of the code under test, like the case itself: a
+        #  failure that needs several calls keeps the calls it needs)
         for l in lines:
-            yield {"lines": [l], "meta": case.get("meta", {})}
+            yield {"lines": [l], "meta": meta}
+        if len(lines) > 2:
+            for i in range(len(lines)):
+                yield {"lines": lines[:i] + lines[i + 1:], "meta": meta}
+        if len(lines) <= 4:                 # a short history: make the values of its calls smaller
+            for i, l in enumerate(lines):
+                op, mode, *rest = l.split()
+                if op in ("rd", "gen"):
+                    continue
+                try:
+                    for w in _smaller(dec_val(rest)):
+                        yield {"lines": lines[:i] + [" ".join([op, mode, enc_val(w, float_keys=True)])] + lines[i + 1:],
+                               "meta": meta}
+                except RecursionError:
+                    continue
         return
     op, mode, *rest = lines[0].split()
     if op == "rd":
@@ -1364,11 +1541,11 @@ def shrink(case):
         x = x[0] if isinstance(x, list) else next(iter(x.values()))
     if len(chain) > 8:
         for cut in (len(chain) // 2, len(chain) // 4, 1):
-            yield {"lines": [" ".join(head + [enc_val(chain[cut])])], "meta": case.get("meta", {})}
+            yield {"lines": [" ".join(head + [enc_val(chain[cut], float_keys=True)])], "meta": case.get("meta", {})}
         return
     try:
         for w in _smaller(v):
-            yield {"lines": [" ".join(head + [enc_val(w)])], "meta": case.get("meta", {})}
+            yield {"lines": [" ".join(head + [enc_val(w, float_keys=True)])], "meta": case.get("meta", {})}
     except RecursionError:
         return
 
@@ -1398,7 +1575,7 @@ def tags(case, replies):
     if not r.startswith("ok "):
         yield "reply:" + r.split(":")[0]
         return
-    text = dec_str(r[3:])
+    text = "\n".join(dec_str(t) for t in r[3:].split("|"))      # (a first line may be a line-iteration view)
     n = text.count("\n") + 1
     yield "lines:" + ("1" if n == 1 else "2-5" if n <= 5 else "6-50" if n <= 50 else ">50")
     longest = max(len(l) for l in text.split("\n"))
@@ -1425,14 +1602,16 @@ def tags(case, replies):
         yield "has:" + k
 
 
-LEVEL_TEXT = ("For every JSON-like value (any nesting, size and offset; strings without quote, backslash, control "
+LEVEL_TEXT = ("For every JSON-like value (any nesting, size and offset; strings of Unicode scalar values without quote, backslash, control "
               "characters; every int, its decimal text computed by the model; floats as the text str() prints), every "
               "choice of the layout thresholds and both keyword tables, proved in Lean on a model of PrettyPrinter's "
               "chunk generator: the printed text lexes to exactly the tokens of the value with dict entries sorted by key "
               "(no element lost, duplicated or reordered in the one-line, wrapped and one-item-per-line layouts), a "
               "JSON-grammar reader returns that value (ints as integers), the sorted value is the same value up to dict "
               "order, keys are strictly increasing in the printer's key order (ints by value, then strings by code point, "
-              "then False/None/True; Python mode reads int and constant keys back), the line iteration joined by line feeds is the text and "
+              "then False/None/True; Python mode reads int and constant keys back), the order of a dict's entries is a function "
+              "of that dict alone (no memory between the dicts of one object; 1 / True and 0 / False are different keys of "
+              "different ranks), the line iteration joined by line feeds is the text and "
               "closed lines never change, a container printed on one line ends left of the one-line limit, every chunk's "
               "syntax class agrees with its text, and the domain predicate is a test the driver runs on every request. "
               "Keyword tables, thresholds and indentation are re-read from ak/ppobj.py on every run; model = code (exact "
@@ -1441,21 +1620,27 @@ LEVEL_TEXT = ("For every JSON-like value (any nesting, size and offset; strings 
 LEVEL_NOTE = ("Kernel-checked theorems (axioms propext, Classical.choice, Quot.sound): C11.consts_ok, wf_checked, "
               "distinct_checked (keys_sorted assumes pairwise distinct keys in every dict - met by every Python dict and "
               "checked by the driver on every request), no_loss, "
-              "json_domain_in_python_domain, read_render, int_text, norm_perm, key_order, keys_sorted, lines, lines_own_chunks, read_lines, sort_then_render, "
+              "json_domain_in_python_domain, read_render, int_text, norm_perm, key_order, keys_sorted, order_is_local, lines, lines_own_chunks, read_lines, sort_then_render, "
               "one_line_fits, chunk_classes, text_determines_value. Resting on the sampled correspondence only: that the "
               "Lean model computes the text / lines / chunks of the real printer (compared character by character on ~5k "
               "values per quick run, boundaries of both thresholds measured on whole containers and on prefixes, over-long "
               "items at every position, nesting to depth 101, value/spelling collisions, call sequences, non-string keys, "
               "shared sub-objects), that the object "
-              "has no memory between calls and between consumption orders (the model is a pure function; the adapter "
-              "exercises nine orders and sequences), and that the Lean reader is what json.loads / ast.literal_eval do "
+              "has no memory between calls, between printer objects and between consumption orders (the model is a pure "
+              "function; the adapter exercises nine orders, call sequences, and explicit histories over keys that are "
+              "equal for Python - True/1/1.0, False/0/0.0 - in one object and across calls; every case and every shrink "
+              "candidate starts from a fresh import of the package, so a reported history is complete and replays in a "
+              "new process), the place of float keys among the keys (oracle only: float keys are not in the model), and that the Lean reader is what json.loads / ast.literal_eval do "
               "(compared on every printed text and on randomly damaged JSON texts; diagnostic). Trusted, not verified: "
               "str() of a float and that the real parsers read that token back as the same float (NaN/Infinity are "
-              "outside the domain), CPython's recursion limit (at the default limit of 1000 the unmodified printer handles 975 "
+              "outside the domain), strings are sequences of Unicode scalar values (lone surrogates are excluded: not "
+              "generated, not expressible in the model; Python source text cannot contain them, so ast.literal_eval "
+              "refuses the text before parsing it, while the printer and json.loads handle them), CPython's recursion limit (at the default limit of 1000 the unmodified printer handles 975 "
               "nesting levels inside a pool worker and raises RecursionError from 985 on; depths 200/400/600/900 are "
               "generated in JSON mode, deeper values are outside the domain; Python mode is generated below 200 levels, "
               "the limit of Python's own parser), the "
               "translator and adapter in harness/c11.py.")
 TECHNIQUE = ("Lean 4 theorems (lexer/parser round trip through a layout-independent token sequence, induction over values, "
              "decimal digits round trip for ints) + translator for keyword tables/thresholds/indentation + "
-             "correspondence check over consumption orders and call sequences")
+             "correspondence check over consumption orders and call sequences, each case run on a fresh import of the "
+             "package under test (explicit histories instead of leftovers)")
